@@ -34,11 +34,16 @@ func jsonOpts(av map[string]string, onEx, onCl func(string)) *synth.Opts {
 func c02Gen(t *rapid.T, r *h.Rec) execCase {
 	av, onEx, onCl := avoidOpts(r)
 	o := jsonOpts(av, onEx, onCl)
+	o.OtherFile = 4 // unions / members / element structs that are only reachable from the analysed file, not declared in it
 	return execCase{Spec: synth.GenTypes(t, o), Seed: int64(rapid.IntRange(1, 1<<30).Draw(t, "childSeed"))}
 }
 
 // childDocs builds the synthesised package with the gounions output and runs the harness in "docs" mode.
 func childDocs(c execCase, r *h.Rec, mode string, extra map[string]string, randFile string) (*loadedSpec, *child.Result, string, error) {
+	return childDocsTypes(c, r, mode, extra, randFile, nil)
+}
+
+func childDocsTypes(c execCase, r *h.Rec, mode string, extra map[string]string, randFile string, typeNames []string) (*loadedSpec, *child.Result, string, error) {
 	ls, err := loadSpec(c.Spec)
 	if err != nil {
 		return nil, nil, "", err
@@ -67,7 +72,7 @@ func childDocs(c execCase, r *h.Rec, mode string, extra map[string]string, randF
 		checks = 80
 	}
 	res, err := child.Run(c.Spec, filepath.Join(scratch()), child.Options{
-		Extra: files, Mode: mode, Seed: c.Seed, Checks: checks, UnionsOut: unionsText, RandFile: randFile, Timeout: 180 * time.Second,
+		Extra: files, Mode: mode, Seed: c.Seed, Checks: checks, UnionsOut: unionsText, RandFile: randFile, Timeout: 180 * time.Second, TypeNames: typeNames,
 	})
 	if err != nil {
 		return ls, nil, "", h.Inconcf("child: %v", err)
